@@ -1,25 +1,12 @@
 package main
 
-// SEQ.GEN — the iterator protocol of seq.generator (property C09), decided as
-// tables: every exported method of the generator type is abstractly evaluated
-// for every combination of {started, next nil/non-nil, result of each resumption
-// nil/non-nil} and compared with the reference protocol of the property:
-//
-//	advance(x): next == nil -> false, nothing runs
-//	            s := next(x); s == nil -> next = nil, current = zero, false
-//	                          else     -> next = s.next, current = s.value, true
-//	MoveNext(): started = true; advance(zero)
-//	Send(v):    !started -> MoveNext() first (false -> (zero,false), no further advance)
-//	            advance(v) -> (current,true) | (zero,false)
-//	Current()/Result(): no call, no store; return the field.
+// helpers shared by the generator rules; the protocol rule itself (SEQ.GEN) is in
+// rules_gen2.go (history based: it replaced a per-method table that compared the
+// generator's internal fields with a reference and so depended on its representation).
 
 import (
-	"fmt"
 	"go/types"
 	"regexp"
-	"strings"
-
-	"golang.org/x/tools/go/ssa"
 )
 
 var epochRe = regexp.MustCompile(`@\d+`)
@@ -62,295 +49,3 @@ func (s *seqRT) generatorType() (*types.Named, types.Type) {
 	return nt.Origin(), d.T
 }
 
-type genCase struct {
-	method  string
-	started bool
-	nextNil bool
-}
-
-type genRef struct {
-	calls   []string // "callee(arg)"
-	next    string   // final d.next ("" = untouched)
-	current string
-	started string
-	ret     []string
-}
-
-// reference protocol; steps: answers of successive resumptions (true = non-nil step)
-func genReference(gc genCase, steps []bool) genRef {
-	r := genRef{}
-	nextName := "⟨next⟩"
-	if gc.nextNil {
-		nextName = "nil"
-	}
-	started := gc.started
-	stepIdx := 0
-	curName := "⟨cur⟩"
-	advance := func(arg string) bool {
-		if nextName == "nil" {
-			return false
-		}
-		r.calls = append(r.calls, nextName+"("+arg+")")
-		nonNil := false
-		if stepIdx < len(steps) {
-			nonNil = steps[stepIdx]
-		}
-		stepIdx++
-		if !nonNil {
-			nextName = "nil"
-			r.next = "nil"
-			curName = "zero"
-			r.current = "zero"
-			return false
-		}
-		sn := fmt.Sprintf("⟨step%d", stepIdx)
-		nextName = sn + ".next⟩"
-		r.next = nextName
-		curName = sn + ".value⟩"
-		r.current = curName
-		return true
-	}
-	moveNext := func() bool {
-		if !started {
-			started = true
-		}
-		r.started = "true"
-		return advance("zero")
-	}
-	switch gc.method {
-	case "MoveNext":
-		ok := moveNext()
-		r.ret = []string{fmt.Sprint(ok)}
-	case "Send":
-		if !started {
-			if !moveNext() {
-				r.ret = []string{"zero", "false"}
-				return r
-			}
-		}
-		if advance("⟨sendv⟩") {
-			r.ret = []string{curName, "true"}
-		} else {
-			r.ret = []string{"zero", "false"}
-		}
-	case "Current":
-		r.ret = []string{"⟨cur⟩"}
-	case "Result":
-		r.ret = []string{"⟨res⟩"}
-	}
-	return r
-}
-
-func (s *seqRT) ruleGen() {
-	c := s.c
-	c.min("SEQ.GEN", 10)
-	nt, ptrT := s.generatorType()
-	_ = ptrT
-	methods := map[string]*ssa.Function{}
-	for i := 0; i < nt.NumMethods(); i++ {
-		m := nt.Method(i)
-		methods[m.Name()] = s.w.Prog.FuncValue(m)
-	}
-	// field names by role: discovered from Start (next) and from the methods' behaviour is
-	// overkill; the protocol is checked through observable stores/returns only, keyed by
-	// the field *written*, whatever its name — except that we must seed abstract field
-	// contents. Seed every field of the struct.
-	st, ok := nt.Underlying().(*types.Struct)
-	if !ok {
-		undecided("generator type is not a struct")
-	}
-	// roles: the func-typed field is next; bool is started; the two V-typed fields are
-	// current/result, told apart by which one Current()/Result() return.
-	var nextF, startedF string
-	var vFields []string
-	for i := 0; i < st.NumFields(); i++ {
-		f := st.Field(i)
-		switch u := f.Type().Underlying().(type) {
-		case *types.Signature:
-			nextF = f.Name()
-		case *types.Basic:
-			if u.Info()&types.IsBoolean != 0 {
-				startedF = f.Name()
-			} else {
-				vFields = append(vFields, f.Name())
-			}
-		default:
-			vFields = append(vFields, f.Name())
-		}
-	}
-	if nextF == "" || startedF == "" || len(vFields) != 2 {
-		undecided("generator struct does not have the expected shape (one func field, one bool, two value fields): next=%q started=%q values=%v", nextF, startedF, vFields)
-	}
-	for _, need := range []string{"MoveNext", "Current", "Send", "Result"} {
-		if methods[need] == nil {
-			undecided("generator method %s not found", need)
-		}
-	}
-	// which value field is current?
-	curF, resF := "", ""
-	{
-		in := s.interp()
-		fields := map[string]AV{}
-		for _, f := range vFields {
-			fields["d."+f] = Sym{Name: "F:" + f}
-		}
-		in.Fields = fields
-		outs := in.Run(nil, methods["Current"], []AV{Sym{Name: "d", NN: true}}, nil)
-		if len(outs) == 1 && len(outs[0].Ret) == 1 {
-			if sv, ok := outs[0].Ret[0].(Sym); ok && strings.HasPrefix(sv.Name, "F:") {
-				curF = strings.TrimPrefix(sv.Name, "F:")
-			}
-		}
-		for _, f := range vFields {
-			if f != curF {
-				resF = f
-			}
-		}
-		s.account(in)
-	}
-	if curF == "" {
-		c.bad("SEQ.GEN", "Current()", s.w.FnPos(methods["Current"]), "Current() does not simply return a field of the generator (it must be a pure read of the value delivered by the latest advance)")
-		return
-	}
-
-	cases := []genCase{}
-	for _, m := range []string{"MoveNext", "Send"} {
-		for _, started := range []bool{false, true} {
-			for _, nextNil := range []bool{false, true} {
-				cases = append(cases, genCase{m, started, nextNil})
-			}
-		}
-	}
-	cases = append(cases, genCase{"Current", true, false}, genCase{"Current", false, true}, genCase{"Result", true, true}, genCase{"Result", false, false})
-
-	for _, gc := range cases {
-		fn := methods[gc.method]
-		pos := s.w.FnPos(fn)
-		c.fn(relName(fn))
-		in := s.interp()
-		var next AV = Sym{Name: "next", NN: true}
-		if gc.nextNil {
-			next = Nil{}
-		}
-		in.Fields = map[string]AV{
-			"d." + nextF:    next,
-			"d." + startedF: mkBool(gc.started),
-			"d." + curF:     Sym{Name: "cur"},
-			"d." + resF:     Sym{Name: "res"},
-		}
-		for i := 1; i <= 4; i++ {
-			// a non-nil step always carries a resumption (Bind/BindRecv build it with mkNext*)
-			k := fmt.Sprintf("step%d.next", i)
-			in.Fields[k] = Sym{Name: k, NN: true}
-		}
-		in.OnCall = func(cc *CallCtx) []Answer {
-			if _, isSym := cc.Callee.(Sym); !isSym {
-				return nil
-			}
-			n := 0
-			for _, e := range cc.St.Events {
-				if e.Kind == "call" && e.Fn == nil {
-					n++
-				}
-			}
-			name := fmt.Sprintf("step%d", n+1)
-			return []Answer{
-				{Ret: []AV{Nil{}}, Label: "step=nil"},
-				{Ret: []AV{Sym{Name: name, NN: true}}, Label: "step=set"},
-			}
-		}
-		var args []AV
-		args = append(args, Sym{Name: "d", NN: true})
-		if gc.method == "Send" {
-			args = append(args, Sym{Name: "sendv"})
-		}
-		outs := in.Run(nil, fn, args, nil)
-		s.account(in)
-		for _, o := range outs {
-			var steps []bool
-			var labels []string
-			for _, l := range o.St.Labels {
-				if l == "step=nil" {
-					steps = append(steps, false)
-					labels = append(labels, "nil")
-				} else if l == "step=set" {
-					steps = append(steps, true)
-					labels = append(labels, "set")
-				}
-			}
-			construct := fmt.Sprintf("%s[started=%v,next=%s,steps=%s]", gc.method, gc.started, nilStr(gc.nextNil), strings.Join(labels, "/"))
-			if o.Panicked {
-				c.bad("SEQ.GEN", construct, pos, "method panics on this history", o.St.TraceStrings()...)
-				continue
-			}
-			want := genReference(gc, steps)
-			// implementation facts
-			var calls []string
-			last := map[string]string{}
-			for _, e := range o.St.Events {
-				switch e.Kind {
-				case "call":
-					var as []string
-					for _, a := range e.Args {
-						as = append(as, normName(a))
-					}
-					calls = append(calls, normName(e.Callee)+"("+strings.Join(as, ",")+")")
-				case "store":
-					last[e.Target] = normName(e.Args[0])
-				case "load":
-				default:
-					calls = append(calls, e.String())
-				}
-			}
-			var ret []string
-			for _, r := range o.Ret {
-				ret = append(ret, normName(r))
-			}
-			var diffs []string
-			if strings.Join(calls, ";") != strings.Join(want.calls, ";") {
-				diffs = append(diffs, fmt.Sprintf("calls: got [%s] want [%s]", strings.Join(calls, "; "), strings.Join(want.calls, "; ")))
-			}
-			cmpField := func(role, field, wantV string) {
-				got, written := last["d."+field]
-				if wantV == "" {
-					if written {
-						// a store of the value the field already holds is harmless
-						orig := map[string]string{nextF: normName(next), startedF: fmt.Sprint(gc.started), curF: "⟨cur⟩", resF: "⟨res⟩"}[field]
-						if got != orig {
-							diffs = append(diffs, fmt.Sprintf("%s: unexpectedly set to %s", role, got))
-						}
-					}
-					return
-				}
-				if !written {
-					orig := map[string]string{nextF: normName(next), startedF: fmt.Sprint(gc.started), curF: "⟨cur⟩", resF: "⟨res⟩"}[field]
-					if orig == wantV {
-						return
-					}
-					diffs = append(diffs, fmt.Sprintf("%s: not updated, want %s", role, wantV))
-					return
-				}
-				if got != wantV {
-					diffs = append(diffs, fmt.Sprintf("%s: got %s want %s", role, got, wantV))
-				}
-			}
-			cmpField("next", nextF, want.next)
-			cmpField("current", curF, want.current)
-			cmpField("started", startedF, want.started)
-			cmpField("result", resF, "")
-			if strings.Join(ret, ",") != strings.Join(want.ret, ",") {
-				diffs = append(diffs, fmt.Sprintf("returns: got (%s) want (%s)", strings.Join(ret, ","), strings.Join(want.ret, ",")))
-			}
-			for k := range last {
-				if !strings.HasPrefix(k, "d.") {
-					diffs = append(diffs, "store outside the generator: "+k)
-				}
-			}
-			if len(diffs) == 0 {
-				c.ok("SEQ.GEN", construct, pos, "calls, field updates and results equal the reference protocol")
-			} else {
-				c.bad("SEQ.GEN", construct, pos, "differs from the iterator protocol: "+strings.Join(diffs, " | "), o.St.TraceStrings()...)
-			}
-		}
-	}
-}
